@@ -255,7 +255,9 @@ def current_order(ref, bet_id, market_id=MID, selection_id=1, handicap=0, side="
               price_size=NS(price=price, size=size), bsp_liability=bsp_liability, status=status, size_matched=size_matched,
               size_remaining=(size - size_matched) if size_remaining is None else size_remaining,
               average_price_matched=average_price_matched, size_cancelled=size_cancelled, size_lapsed=size_lapsed, size_voided=size_voided,
-              placed_date=placed_date or (core._EPOCH + _dt.timedelta(milliseconds=T0_MS)), matched_date=None, cancelled_date=None, lapsed_date=None,
+              placed_date=placed_date or (core._EPOCH + _dt.timedelta(milliseconds=T0_MS)),
+              matched_date=(core._EPOCH + _dt.timedelta(milliseconds=T0_MS + 500)) if (not isinstance(size_matched, (int, float)) or size_matched) else None,
+              cancelled_date=None, lapsed_date=None,
               regulator_auth_code=None, regulator_code=None)
 
 
